@@ -1,10 +1,14 @@
 """C08 — function pullbacks implement each element's declared push-forward.
 
 TLC (spec/Pullback.tla) enumerates (affine cell map, element) pairs, checks the model-level theorems
-(shape algebra, the flattening bijection of mixed/symmetric compositions, covariant/contravariant
-duality, double Piola = single Piola on each index, K is the Moore-Penrose inverse, detJ^2 =
+(shape algebra, the flattening bijection of mixed/symmetric compositions, the order in which a symmetry
+dictionary is written is not observable, covariant/contravariant duality, double Piola = single Piola on each index, K is the Moore-Penrose inverse, detJ^2 =
 det(J^T J)) and prints for every pair the predicted physical value shape and the exact physical
 value table of the element's push-forward applied to the reference values (distinct primes).
+
+A symmetric element is modelled the way it is declared: by the ordered list of the entries of its symmetry
+dictionary (any key order, block rank 1-3, rectangular blocks, composite sub-elements); build_element writes the real
+dictionary in exactly that order.
 
 The conformance step builds the real mesh / function space / Coefficient / Argument for every pair,
 applies the real `apply_function_pullbacks` (to the coefficient, to the argument, to the restricted
